@@ -22,7 +22,23 @@ ENGINES = [
 ]
 ENGINES.append({"name": "Cli", "path": "coq/theories/Cli", "serves_properties": ["C19", "C20"],
      "kind_free_text": "Gallina model of minify(Task)'s file-system effects per task shape (rename/truncate/write/unlink lists) over path -> option bytes, and F1 model of concatFileReader; harness/cmd/clifs (strace skeletons, real kills, fs images) + verif-tagged hook test for the reader"})
+ENGINES.append({"name": "Xml", "path": "coq/theories/Xml + coq/theories/Base/Ws.v", "serves_properties": ["C06", "C09", "C16"],
+     "kind_free_text": "F2 Gallina model of xml.Minify's loop over the real lexer's tokens (white-space state machine, CDATA, attribute re-quoting), words/runs specification; harness/cmd/xmloracle (token dump + encoding/xml oracle)"})
 CHECKS = {
+    "C06": {
+        "engine": "Xml", "design_ref": "DESIGN.md section 4 / C06",
+        "technique": "Coq proof (invariant over token lists: words per run preserved; escapers invert) + correspondence on real lexer tokens; encoding/xml walk as search",
+        "text": ("Theorems (Props/C06.v), for every token list meeting the lexer's guarantees and both KeepWhitespace settings: the output has the same markup "
+                 "items in order and, run by run, the same words — the white-space state machine with look-ahead never joins, splits or drops a word; with "
+                 "KeepWhitespace a text after a tag keeps its leading space; the re-quoted attribute literal contains no raw quote of its kind, decodes to "
+                 "the same value and is the shorter quoting; CDATA turned into text decodes to exactly its characters, has no '<', and is not longer than the "
+                 "section; the model of white-space collapsing keeps words. Tie: the extracted model consumes the real parse/xml token stream of every "
+                 "generated or mutated document (20,000 per quick run) and must reproduce xml.Minify's bytes; the escapers and collapse are compared with the "
+                 "real helpers; the theorem's hypothesis wf_tokens is measured on every real text token. Partial: reference decoding inside a token "
+                 "(parse.ReplaceEntities) and the lexer are run, not modelled; output well-formedness across pieces is search-only (open findings K28, K42, K43, K59-K61)."),
+        "note": ("Trusted: Coq kernel, extraction, driver, harness; XmlSpec.v as the token-level meaning of the property; parse/xml lexer and entity helpers "
+                 "(dependency) are run, not modelled."),
+    },
     "C20": {
         "engine": "Cli", "design_ref": "DESIGN.md section 4 / C20",
         "technique": "Coq proof (invariant over every prefix of the system-call list, any write split) + strace skeleton correspondence + real SIGKILL injection as search",
